@@ -2,7 +2,9 @@
    behind embedded signatures and the qualified-name transform.
    Second part (below): the code object behind inspect.signature() - the module-wide bit-field
    struct of code-object descriptions and inspect._signature_from_function.
-   Only statements; proofs live in Proof/P_ExprPrint.v, Proof/P_ExprPrint_Read.v, Proof/P_CodeDescr.v. *)
+   Third part (end): the layout of the embedded parameter list (EmbedSignature._fmt_arglist).
+   Only statements; proofs live in Proof/P_ExprPrint.v, Proof/P_ExprPrint_Read.v, Proof/P_CodeDescr.v,
+   Proof/P_ArgList.v. *)
 From Coq Require Import List NArith ZArith Bool Arith.
 From CyVerif Require Import Lib.CInt Model.M_ExprPrint Proof.P_ExprPrint Proof.P_ExprPrint_Read.
 From CyVerif Require Import Model.M_CodeDescr Proof.P_CodeDescr.
@@ -152,3 +154,105 @@ Example C25_codedescr_nonvacuous :
     SigOk [(1%N, PosOrKw, None); (2%N, PosOrKw, None); (3%N, PosOrKw, Some 3%N); (4%N, PosOrKw, Some 4%N);
            (5%N, KwOnly, Some 5%N); (6%N, KwOnly, Some 6%N); (7%N, VarKw, None)].
 Proof. vm_compute. repeat split; try reflexivity. discriminate. right; left; reflexivity. Qed.
+
+(* ======================================================================================
+   Third part: the LAYOUT of the embedded parameter list (AutoDocTransforms.py,
+   EmbedSignature._fmt_arglist): which formatted argument goes where, and where the markers
+   '/', '*', '*args', '**kwargs' are inserted.  Model/M_ArgList.v, Proof/P_ArgList.v.
+   The formatted text of one argument (A) is abstract: its default-value part is the subject
+   of the first part. *)
+From CyVerif Require Import Model.M_ArgList Proof.P_ArgList.
+Open Scope nat_scope.
+
+(* THE PROPERTY for this region: for EVERY source signature (any number of positional-only,
+   positional-or-keyword and keyword-only parameters, with or without *args / **kwargs) the list
+   _fmt_arglist returns is the canonical rendering - '/' right after the last positional-only
+   parameter, '*args' or (with keyword-only parameters and no *args) a bare '*' right in front of
+   the keyword-only ones, '**kwargs' last - whenever no argument is hidden: def functions, methods,
+   classmethods, staticmethods, cpdef functions, every embedsignature.format. *)
+Theorem C25_arglist_canonical : forall (A : Type) (fx hs : bool) (s : sigsrc A),
+  fmt_of StarThenSlash fx s hs = canon s.
+Proof. exact arglist_canonical. Qed.
+Print Assumptions C25_arglist_canonical.
+
+(* methods: a listed self / cls argument is an ordinary first parameter *)
+Theorem C25_arglist_visible_self_canonical : forall (A : Type) (fx : bool) (self : A) (s : sigsrc A),
+  fmt_of_self StarThenSlash fx self true s false
+    = canon {| s_po := self :: s_po s; s_pk := s_pk s; s_va := s_va s; s_ko := s_ko s; s_kw := s_kw s |}
+  /\ (s_po s = [] ->
+      fmt_of_self StarThenSlash fx self false s false
+      = canon {| s_po := []; s_pk := self :: s_pk s; s_va := s_va s; s_ko := s_ko s; s_kw := s_kw s |}).
+Proof. exact arglist_visible_self_canonical. Qed.
+Print Assumptions C25_arglist_visible_self_canonical.
+
+(* the canonical rendering is read back by the Python parameter-list grammar (one '/', not first,
+   before any star; a bare '*' needs a parameter after it; '**' last; None = SyntaxError) as exactly
+   the source parameters: names in order, kinds, *args and **kwargs *)
+Theorem C25_canon_reads_back : forall (A : Type) (s : sigsrc A), read_sig (canon s) = Some s.
+Proof. exact canon_reads_back. Qed.
+Print Assumptions C25_canon_reads_back.
+
+(* "the embedded signature text parses to the same parameter list", at the token level *)
+Theorem C25_arglist_reads_back : forall (A : Type) (fx hs : bool) (s : sigsrc A),
+  read_sig (fmt_of StarThenSlash fx s hs) = Some s.
+Proof. exact arglist_reads_back. Qed.
+Print Assumptions C25_arglist_reads_back.
+
+(* FULL STATEMENT for a hidden self (format c shows __init__ of a class K as the constructor K(args)
+   in the class docstring, hide_self=True), false for the code as it is:
+     forall self self_po s, (self_po = false -> s_po s = []) ->
+       fmt_of_self StarThenSlash false self self_po s true = canon s.
+   Refuted (C25_hidden_self_asis_refuted: the hidden self still counts for the marker indices);
+   proved for the repaired variant
+   (proposed_fixes/C25-c_format_init_hidden_self_shifts_markers.diff) ... *)
+Theorem C25_arglist_hidden_self_fixed : forall (A : Type) (self : A) (self_po : bool) (s : sigsrc A),
+  (self_po = false -> s_po s = []) ->
+  fmt_of_self StarThenSlash true self self_po s true = canon s /\
+  read_sig (fmt_of_self StarThenSlash true self self_po s true) = Some s.
+Proof.
+  intros A self self_po s H. split.
+  - exact (@arglist_hidden_self_fixed A self self_po s H).
+  - exact (@arglist_hidden_self_fixed_reads_back A self self_po s H).
+Qed.
+Print Assumptions C25_arglist_hidden_self_fixed.
+
+(* ... and for the code as it is on the complement of the finding class: self not positional-only
+   and no keyword-only parameters *)
+Theorem C25_arglist_hidden_self_asis_partial : forall (A : Type) (self : A) (s : sigsrc A),
+  s_po s = [] -> s_ko s = [] ->
+  fmt_of_self StarThenSlash false self false s true = canon s.
+Proof. exact arglist_hidden_self_asis_partial. Qed.
+Print Assumptions C25_arglist_hidden_self_asis_partial.
+
+Theorem C25_hidden_self_asis_refuted :
+  fmt_of_self StarThenSlash false 0 false w_init true = [TArg 1; TArg 2; TStar] /\
+  read_sig (fmt_of_self StarThenSlash false 0 false w_init true) = None /\
+  fmt_of_self StarThenSlash false 0 false w_init2 true = [TArg 1; TArg 2; TVarArgs 9] /\
+  read_sig (fmt_of_self StarThenSlash false 0 false w_init2 true) <> Some w_init2 /\
+  fmt_of_self StarThenSlash false 0 true
+      {| s_po := []; s_pk := [1]; s_va := None; s_ko := []; s_kw := None |} true = [TArg 1; TSlash] /\
+  fmt_of_self StarThenSlash true 0 false w_init true = canon w_init /\
+  fmt_of_self StarThenSlash true 0 false w_init2 true = canon w_init2.
+Proof. exact hidden_self_asis_refuted. Qed.
+Print Assumptions C25_hidden_self_asis_refuted.
+
+(* the variant that inserts '/' first and keeps the star index (computed for a list without '/'):
+   def f(a, /, b, [star], c) is embedded as f(a, /, [star], b, c) and def h(a, b, /, [star], c) as
+   the unparsable h(a, b, [star], /, c) *)
+Theorem C25_slash_first_refuted :
+  fmt_of SlashThenStar false w_seed false = [TArg 1; TSlash; TStar; TArg 2; TArg 3] /\
+  fmt_of SlashThenStar false w_seed false <> canon w_seed /\
+  read_sig (fmt_of SlashThenStar false w_seed false)
+    = Some {| s_po := [1]; s_pk := []; s_va := None; s_ko := [2; 3]; s_kw := None |} /\
+  fmt_of SlashThenStar false w_seed2 false = [TArg 1; TArg 2; TStar; TSlash; TArg 3] /\
+  read_sig (fmt_of SlashThenStar false w_seed2 false) = None /\
+  fmt_of StarThenSlash false w_seed false = canon w_seed /\
+  fmt_of StarThenSlash false w_seed2 false = canon w_seed2.
+Proof. exact slash_first_refuted. Qed.
+Print Assumptions C25_slash_first_refuted.
+
+Example C25_arglist_nonvacuous :   (* def g(a, b, /, c, [star]args, d, e, [2star]kw) *)
+  fmt_of StarThenSlash false
+    {| s_po := [1; 2]; s_pk := [3]; s_va := Some 7; s_ko := [4; 5]; s_kw := Some 8 |} false
+  = [TArg 1; TArg 2; TSlash; TArg 3; TVarArgs 7; TArg 4; TArg 5; TKwArgs 8].
+Proof. vm_compute. reflexivity. Qed.
